@@ -1,10 +1,12 @@
 \* LspSession: defective design (DidOpen keeps the preloaded copy), must be rejected
 CONSTANTS
+  Docs = {"hello", "other"}
   Texts = {"t1", "t2", "t3"}
   OpenRule = "keepPreloaded"
   HistLen = 6
 INIT Init
 NEXT Next
 VIEW View
-INVARIANTS ServerTracksEditor NoCopyWhenClosed
+INVARIANTS ServerTracksEditor
+PROPERTIES Independent
 CHECK_DEADLOCK FALSE
